@@ -216,17 +216,22 @@ Proof.
 Qed.
 
 (* uv_run: (one timer pass, DEFAULT only) then iterations, then the result *)
+Definition uv_start (s : lstate) (beh : nat -> list lop) (sa : lstate) : Prop :=
+  let s0 := if loop_alive s then s else update_time s in
+  sa = s0 \/ sa = fst (l_run_timers (update_time s0) beh).
+
 Theorem uv_run_trace fuel s beh mode s' evs :
   uv_run fuel s beh mode = (s', evs) ->
   exists e0 its r sa sb,
     evs = e0 ++ concat its ++ [VRun r] /\
     Forall (eq 0%nat) (cb_tags e0) /\
     (mode <> 0%nat -> e0 = []) /\
+    uv_start s beh sa /\
     loop_iters beh mode sa its sb /\
     Forall phase_word (map cb_tags its) /\
     s' = set_stop sb false.
 Proof.
-  unfold uv_run. intros H.
+  unfold uv_run, uv_start. intros H.
   set (r := loop_alive s) in *.
   set (s0 := if r then s else update_time s) in *.
   destruct (Nat.eqb mode 0 && r && negb (stop_flag s0)) eqn:Ec.
